@@ -26,8 +26,8 @@ def monitorTag (prop : String) (script : List Cmd) (obs : List Obs) : Option Str
   | some c => some c
   | none =>
     match prop with
-    | "C03" => MonClient.monitorC03 iters 0
-    | "C04" => (MonClient.monitorC03 iters 0) <|> (MonClient.monitorC04 script iters 0) <|>
+    | "C03" => MonClient.monitorC03 script iters 0
+    | "C04" => (MonClient.monitorC03 script iters 0) <|> (MonClient.monitorC04 script iters 0) <|>
                (MonClient.monitorC04Followups script iters 0)
     | "C05" => MonClient.monitorC05 script iters 0
     | "C17" => (MonClient.monitorC17 script iters 0) <|> refineD24 iters (Sim.monitorC13 script iters)
